@@ -11,6 +11,9 @@ package webrtc
 // functions over the recorded history.
 
 import (
+	"crypto/ecdsa"
+	"crypto/elliptic"
+	"crypto/rand"
 	"encoding/json"
 	"errors"
 	"fmt"
@@ -40,6 +43,8 @@ type sgPeerCfg struct {
 	PoolSize    int  `json:"pool,omitempty"`
 	RTCPMux     int  `json:"rtcp_mux,omitempty"`
 	CodecSeed   uint64 `json:"codec_seed,omitempty"`
+	TwoCerts    bool   `json:"two_certs,omitempty"`     // created with two certificates
+	HandlerAns  bool   `json:"handler_answer,omitempty"` // the application calls CreateAnswer from OnSignalingStateChange(have-remote-offer)
 }
 
 type sgCase struct {
@@ -79,6 +84,7 @@ type sgRec struct {
 	Tamper   string
 	Foreign  bool
 	EmptySDP bool
+	Undrained bool // queued work did not finish within the drain budget: "each call's queued work finishes before the next" does not hold here
 	Note     string
 }
 
@@ -95,6 +101,10 @@ type sgPeerState struct {
 	changes    []sgChange
 	closed     bool
 	gen        *sgGenState
+	explicitPrefs bool // SetCodecPreferences was given codecs with explicit (local) payload types
+	trackOf    map[*RTPSender]TrackLocal
+	trackSet   []*RTPSender
+	handlerAns []SessionDescription // answers the OnSignalingStateChange handler created
 	foreign    *sgForeignSession
 	partner    string // "", "pion" or "foreign": a connection negotiates with one remote party only
 }
@@ -154,9 +164,17 @@ func (r *sgRun) snap(i int) sgSnap {
 	return s
 }
 
-func (r *sgRun) drain() {
-	vfDrain(70*time.Second, r.peers[0].p, r.peers[1].p)
+// drain reports whether both queues really ran dry (an operation can block for good, e.g.
+// startRTP waiting for a DTLS transport that never starts because ICE failed).
+func (r *sgRun) drain() bool {
+	ok := vfDrain(70*time.Second, r.peers[0].p, r.peers[1].p)
 	vfSettle(time.Millisecond)
+	for _, ps := range r.peers {
+		if !ps.p.pc.ops.IsEmpty() {
+			ok = false
+		}
+	}
+	return ok
 }
 
 func sgPeerOpts(cfg sgPeerCfg) vfPeerOpt {
@@ -180,6 +198,15 @@ func sgPeerOpts(cfg sgPeerCfg) vfPeerOpt {
 			_ = se.SetAnsweringDTLSRole(DTLSRoleServer)
 		}
 		sgRegisterCodecs(me, cfg)
+		if cfg.TwoCerts {
+			for k := 0; k < 2; k++ {
+				if sk, err := ecdsa.GenerateKey(elliptic.P256(), rand.Reader); err == nil {
+					if ct, err := GenerateCertificate(sk); err == nil {
+						c.Certificates = append(c.Certificates, *ct)
+					}
+				}
+			}
+		}
 	}
 }
 
@@ -214,6 +241,15 @@ func sgRegisterCodecs(me *MediaEngine, cfg sgPeerCfg) {
 		_ = me.RegisterCodec(RTPCodecParameters{RTPCodecCapability: RTPCodecCapability{MimeType: MimeTypeH264, ClockRate: 90000, SDPFmtpLine: "level-asymmetry-allowed=1;packetization-mode=0;profile-level-id=640032", RTCPFeedback: fb}, PayloadType: next()}, RTPCodecTypeVideo)
 		_ = me.RegisterCodec(RTPCodecParameters{RTPCodecCapability: RTPCodecCapability{MimeType: MimeTypeVP9, ClockRate: 90000, SDPFmtpLine: "profile-id=0"}, PayloadType: next()}, RTPCodecTypeVideo)
 		_ = me.RegisterCodec(RTPCodecParameters{RTPCodecCapability: RTPCodecCapability{MimeType: MimeTypeRTX, ClockRate: 90000, SDPFmtpLine: "apt=127"}, PayloadType: next()}, RTPCodecTypeVideo)
+	case 4: // vp8 + rtx + flexfec, h264 + rtx
+		_ = me.RegisterCodec(RTPCodecParameters{RTPCodecCapability: RTPCodecCapability{MimeType: MimeTypeOpus, ClockRate: 48000, Channels: 2}, PayloadType: next()}, RTPCodecTypeAudio)
+		v := next()
+		_ = me.RegisterCodec(RTPCodecParameters{RTPCodecCapability: RTPCodecCapability{MimeType: MimeTypeVP8, ClockRate: 90000, RTCPFeedback: fb}, PayloadType: v}, RTPCodecTypeVideo)
+		_ = me.RegisterCodec(RTPCodecParameters{RTPCodecCapability: RTPCodecCapability{MimeType: MimeTypeRTX, ClockRate: 90000, SDPFmtpLine: fmt.Sprintf("apt=%d", v)}, PayloadType: next()}, RTPCodecTypeVideo)
+		h := next()
+		_ = me.RegisterCodec(RTPCodecParameters{RTPCodecCapability: RTPCodecCapability{MimeType: MimeTypeH264, ClockRate: 90000, SDPFmtpLine: "level-asymmetry-allowed=1;packetization-mode=1;profile-level-id=42e01f", RTCPFeedback: fb}, PayloadType: h}, RTPCodecTypeVideo)
+		_ = me.RegisterCodec(RTPCodecParameters{RTPCodecCapability: RTPCodecCapability{MimeType: MimeTypeRTX, ClockRate: 90000, SDPFmtpLine: fmt.Sprintf("apt=%d", h)}, PayloadType: next()}, RTPCodecTypeVideo)
+		_ = me.RegisterCodec(RTPCodecParameters{RTPCodecCapability: RTPCodecCapability{MimeType: MimeTypeFlexFEC03, ClockRate: 90000, SDPFmtpLine: "repair-window=10000000"}, PayloadType: next()}, RTPCodecTypeVideo)
 	default: // audio only
 		_ = me.RegisterCodec(RTPCodecParameters{RTPCodecCapability: RTPCodecCapability{MimeType: MimeTypeOpus, ClockRate: 48000, Channels: 2}, PayloadType: next()}, RTPCodecTypeAudio)
 		_ = me.RegisterCodec(RTPCodecParameters{RTPCodecCapability: RTPCodecCapability{MimeType: MimeTypeVP8, ClockRate: 90000}, PayloadType: next()}, RTPCodecTypeVideo)
@@ -494,10 +530,19 @@ func (r *sgRun) exec(i int, op sgOp) {
 		if s.kind == RTPCodecTypeVideo {
 			kind = 1
 		}
-		if op.B&1 == 1 {
-			err = s.ReplaceTrack(nil)
-		} else {
-			err = s.ReplaceTrack(r.newTrack(ps, kind))
+		var nt TrackLocal
+		if op.B&1 != 1 {
+			nt = r.newTrack(ps, kind)
+		}
+		err = s.ReplaceTrack(nt)
+		if err == nil {
+			// the model of "the track this sender sends" is the last successful ReplaceTrack argument,
+			// not whatever the sender reports
+			if ps.trackOf == nil {
+				ps.trackOf = map[*RTPSender]TrackLocal{}
+			}
+			ps.trackOf[s] = nt
+			ps.trackSet = append(ps.trackSet, s)
 		}
 	case "codecprefs":
 		rec.Kind = "media"
@@ -515,18 +560,41 @@ func (r *sgRun) exec(i int, op sgOp) {
 		}
 		rr := vfNewRand(r.c.GenSeed, fmt.Sprint("cp", i))
 		var sel []RTPCodecParameters
-		for _, k := range rr.perm(len(all)) {
-			if rr.Bool(0.6) {
-				sel = append(sel, all[k])
+		if op.B&2 != 0 {
+			sel = append(sel, all...) // everything, in registration order (codec + RTX pairs stay together)
+		} else {
+			for _, k := range rr.perm(len(all)) {
+				if rr.Bool(0.6) {
+					sel = append(sel, all[k])
+				}
+			}
+		}
+		if op.B&1 != 0 {
+			for k := range sel {
+				sel[k].PayloadType = 0 // "whatever gets negotiated"
 			}
 		}
 		err = tr.SetCodecPreferences(sel)
+		if err == nil && op.B&1 == 0 && len(sel) > 0 {
+			ps.explicitPrefs = true
+		}
 	case "createdc":
 		rec.Kind = "media"
+		negotiatedApp := false // an application section is already part of the negotiated session
+		for _, cl := range []*SessionDescription{pc.CurrentLocalDescription(), pc.PendingLocalDescription()} {
+			if cl == nil {
+				continue
+			}
+			for _, sec := range vfParseSDP(cl.SDP).Sections {
+				if sec.Kind == "application" && sec.Port != 0 {
+					negotiatedApp = true
+				}
+			}
+		}
 		_, err = pc.CreateDataChannel(fmt.Sprintf("dc-%d", ps.dcs), nil)
 		if err == nil {
 			ps.dcs++
-			if ps.dcs == 1 {
+			if ps.dcs == 1 && !negotiatedApp {
 				ps.changes = append(ps.changes, sgChange{rec.Idx, "first-datachannel"})
 			}
 		}
@@ -556,11 +624,23 @@ func (r *sgRun) exec(i int, op sgOp) {
 		}
 		rec.ErrKind = sgErrKind(err)
 	}
-	r.drain()
+	rec.Undrained = !r.drain()
 	rec.Post = r.snap(op.Peer)
 	r.recs = append(r.recs, rec)
 	r.lines = append(r.lines, fmt.Sprintf("%d p%d %s type=%s tamper=%s empty=%v err=%q %s -> %s", rec.Idx, op.Peer, op.Kind, rec.Type, rec.Tamper, rec.EmptySDP, rec.Err, rec.Pre.State, rec.Post.State))
 	sgMonitorGenerated(r, ps, rec)
+	// answers created by the application's signaling-state handler while this operation ran
+	ps.p.mu.Lock()
+	ha := ps.handlerAns
+	ps.handlerAns = nil
+	ps.p.mu.Unlock()
+	for k := range ha {
+		d := ha[k]
+		ps.created = append(ps.created, d)
+		hrec := &sgRec{Idx: rec.Idx, Op: sgOp{Kind: "answer-in-handler", Peer: op.Peer}, Kind: "create-answer", Type: "answer", Desc: &d, Pre: rec.Post, Post: rec.Post}
+		r.lines = append(r.lines, fmt.Sprintf("%d p%d answer-in-handler", rec.Idx, op.Peer))
+		sgMonitorGenerated(r, ps, hrec)
+	}
 }
 
 func (r *sgRun) pick(op sgOp, n int) int {
@@ -652,7 +732,23 @@ func sgRunCase(t *testing.T, cj []byte, res *vfResult, prop string) {
 				res.Verdict, res.Detail = "error", "NewPeerConnection: "+err.Error()
 				return
 			}
-			r.peers[i] = &sgPeerState{p: p, cfg: c.Peers[i]}
+			ps := &sgPeerState{p: p, cfg: c.Peers[i]}
+			r.peers[i] = ps
+			if c.Peers[i].HandlerAns {
+				// replaces the default recorder of vfNewPeer: count the event, then answer from the handler
+				p.pc.OnSignalingStateChange(func(s SignalingState) {
+					p.mu.Lock()
+					p.sigStates = append(p.sigStates, s.String())
+					p.mu.Unlock()
+					if s == SignalingStateHaveRemoteOffer {
+						if d, err := p.pc.CreateAnswer(nil); err == nil {
+							p.mu.Lock()
+							ps.handlerAns = append(ps.handlerAns, d)
+							p.mu.Unlock()
+						}
+					}
+				})
+			}
 		}
 		_ = nw.Start()
 		defer func() {
@@ -669,6 +765,13 @@ func sgRunCase(t *testing.T, cj []byte, res *vfResult, prop string) {
 			}
 		}
 		r.drain()
+		for pi, ps := range r.peers {
+			pc := ps.p.pc
+			var fires []string
+			ps.p.snapshot(func() { fires = append(fires, ps.p.negNeeded...) })
+			r.lines = append(r.lines, fmt.Sprintf("end p%d: state=%s conn=%s negotiationneeded fires=%v flag=%v onEmptyChain=%v opsEmpty=%v stillNeeded=%v", pi, pc.SignalingState(), pc.ConnectionState(),
+				fires, pc.isNegotiationNeeded.Load(), pc.updateNegotiationNeededFlagOnEmptyChain.Load(), pc.ops.IsEmpty(), !pc.isClosed.Load() && pc.checkNegotiationNeeded()))
+		}
 		sgOracles(r)
 	})
 	res.Log = r.lines
